@@ -11,7 +11,8 @@ from vfw.hspec import B, H, I, bind
 ON = [icontract.InvariantCheckEvent.CALL, icontract.InvariantCheckEvent.SETATTR, icontract.InvariantCheckEvent.ALL]
 STEPS = ["subclass_plain", "subclass_override_pre_post", "subclass_own_invariant", "subclass_override_snapshot_post",
          "class_two_bases", "decorate_fresh_function", "decorate_same_bare_again", "subclass_override_bare",
-         "class_with_mixin_own_invariant", "subclass_property_new_setter", "subclass_property_new_getter"]
+         "class_with_mixin_own_invariant", "subclass_property_new_setter", "subclass_property_new_getter",
+         "posthoc_require_on_bare_override", "subclass_aliases_base_function"]
 
 
 class World:
@@ -121,6 +122,17 @@ class World:
                         return 2
                     prop = base.p.getter(new_get)
                 classes.append(icontract.DBCMeta(n, (base,), {"p": prop}))
+            elif what == "posthoc_require_on_bare_override":
+                # a subclass overrides m without own contracts; a precondition is added to that override afterwards
+                n = self.fresh_name("S")
+                cls = self.new_class(n, (base,), override=True)
+                cls.m = icontract.require(self.cond(n + ".pre", ("x",)), error=self.err(n + ".pre"))(cls.m)
+                classes.append(cls)
+            elif what == "subclass_aliases_base_function":
+                # class R(base, Other): m = base.m   where Other.m has no preconditions
+                other = icontract.DBCMeta(self.fresh_name("Other"), (icontract.DBC,), {"m": (lambda self, x: "other")})
+                n = self.fresh_name("R")
+                classes.append(icontract.DBCMeta(n, (base, other), {"m": base.m}))
             elif what == "decorate_fresh_function":
                 n = self.fresh_name("g")
 
